@@ -128,7 +128,15 @@ func (a *sessionAwareAdapter) RestoreSession(
 	for i := index + 1; i < len(a.packets); i++ {
 		packet := a.packets[i]
 		if shouldIncludePacket(sessionWithTS.SessionToPersist.Rooms, packet.Opts) {
-			missedPackets = append(missedPackets, packet)
+			// Hand out copies: whoever replays a packet encodes it, and the encoder rewrites the
+			// header and replaces binary arguments by placeholders in the slice it is given.
+			// The log entry must stay intact for the next session that recovers the same packet.
+			packetCopy := *packet
+			headerCopy := *packet.Header
+			packetCopy.Header = &headerCopy
+			packetCopy.Data = make([]any, len(packet.Data))
+			copy(packetCopy.Data, packet.Data)
+			missedPackets = append(missedPackets, &packetCopy)
 		}
 	}
 
